@@ -157,6 +157,11 @@ func classifyGuard(e ast.Expr) string {
 	return "(GUnknown " + tx.CoqString(text(e)) + ")"
 }
 
+type pending struct {
+	fi fileInfo
+	fd *ast.FuncDecl
+}
+
 type fileInfo struct {
 	rel string
 	f   *ast.File
@@ -421,10 +426,6 @@ func gen() ([]byte, error) {
 	var ctl, enc, calls, lits, writes []string
 	// functions whose cipher key is a parameter
 	keyParamFuncs := map[string]bool{}
-	type pending struct {
-		fi fileInfo
-		fd *ast.FuncDecl
-	}
 	var fds []pending
 	for _, fi := range files {
 		for _, d := range fi.f.Decls {
@@ -600,6 +601,83 @@ func gen() ([]byte, error) {
 	writeList(&b, "sniff_sites", "sniff_site", sniffSites)
 	writeList(&b, "listener_calls", "listener_call", lcalls)
 
+	// (i) which *tls.Config every TLS-terminating site of the server receives
+	var tlsUses []string
+	originArgs := []string{}
+	fieldIsOrigin := tlsFieldInit(fds)
+	for _, p := range fds {
+		fi, fd := p.fi, p.fd
+		if !strings.HasPrefix(fi.rel, "server/") {
+			continue
+		}
+		ast.Inspect(fd.Body, func(n ast.Node) bool {
+			c, ok := n.(*ast.CallExpr)
+			if !ok {
+				return true
+			}
+			switch {
+			case isSel(c.Fun, "transport", "NewServerTLSConfig"):
+				for _, a := range c.Args {
+					originArgs = append(originArgs, text(a))
+				}
+			case isSel(c.Fun, "netpkg", "CheckAndEnableTLSServerConnWithTimeout") && len(c.Args) == 4:
+				tlsUses = append(tlsUses, fmt.Sprintf("mk_tls_use %s %s %s %s", q(fi.rel), q(fd.Name.Name), q("sniff"), tlsCfgExpr(fd, c.Args[1], fieldIsOrigin)))
+			case isSel(c.Fun, "quic", "ListenAddr") && len(c.Args) == 3:
+				tlsUses = append(tlsUses, fmt.Sprintf("mk_tls_use %s %s %s %s", q(fi.rel), q(fd.Name.Name), q("quic.ListenAddr"), tlsCfgExpr(fd, c.Args[1], fieldIsOrigin)))
+			case isSel(c.Fun, "tls", "Server") || isSel(c.Fun, "tls", "NewListener") || isSel(c.Fun, "tls", "Listen"):
+				cfgArg := c.Args[len(c.Args)-1]
+				tlsUses = append(tlsUses, fmt.Sprintf("mk_tls_use %s %s %s %s", q(fi.rel), q(fd.Name.Name), q(text(c.Fun)), tlsCfgExpr(fd, cfgArg, fieldIsOrigin)))
+			}
+			return true
+		})
+	}
+	writeList(&b, "tls_uses", "tls_use", tlsUses)
+	{
+		var qs []string
+		for _, a := range originArgs {
+			qs = append(qs, q(a))
+		}
+		fmt.Fprintf(&b, "Definition tls_origin_args : list string := [%s].\n", strings.Join(qs, "; "))
+	}
+	// inside the sniff: every tls.Server call is given the function's own tlsConfig parameter
+	{
+		var calls []string
+		for _, d := range tf.Decls {
+			fd, ok := d.(*ast.FuncDecl)
+			if !ok || fd.Name.Name != "CheckAndEnableTLSServerConnWithTimeout" || fd.Body == nil {
+				continue
+			}
+			param := "?"
+			if fd.Type.Params != nil && len(fd.Type.Params.List) >= 2 && len(fd.Type.Params.List[1].Names) == 1 {
+				param = fd.Type.Params.List[1].Names[0].Name
+			}
+			reassigned := false
+			ast.Inspect(fd.Body, func(n ast.Node) bool {
+				switch x := n.(type) {
+				case *ast.CallExpr:
+					if isSel(x.Fun, "tls", "Server") && len(x.Args) == 2 {
+						same := "false"
+						if id, ok := x.Args[1].(*ast.Ident); ok && id.Name == param {
+							same = "true"
+						}
+						calls = append(calls, same)
+					}
+				case *ast.AssignStmt:
+					for _, l := range x.Lhs {
+						if strings.HasPrefix(text(l), param) {
+							reassigned = true
+						}
+					}
+				}
+				return true
+			})
+			if reassigned {
+				calls = append(calls, "false")
+			}
+		}
+		fmt.Fprintf(&b, "Definition sniff_tls_server_calls : list bool := [%s].\n", strings.Join(calls, "; "))
+	}
+
 	// (g) shape of NewCryptoReadWriter: the cipher must be built for every key value
 	cf, err := parseOne("pkg/util/net/conn.go")
 	if err != nil {
@@ -690,6 +768,143 @@ func crwShape(f *ast.File) string {
 		return "CrwAlways"
 	}
 	return unknown("NewCryptoReadWriter not found")
+}
+
+// tlsFieldInit: the identifier the struct field tlsConfig is initialised from in a composite literal
+// (function name, identifier), and whether the field is assigned anywhere else under server/.
+func tlsFieldInit(fds []pending) bool {
+	init := map[string]string{}
+	initFd := map[string]*ast.FuncDecl{}
+	other := false
+	for _, p := range fds {
+		if !strings.HasPrefix(p.fi.rel, "server/") {
+			continue
+		}
+		fn := p.fd.Name.Name
+		ast.Inspect(p.fd.Body, func(n ast.Node) bool {
+			switch x := n.(type) {
+			case *ast.KeyValueExpr:
+				if k, ok := x.Key.(*ast.Ident); ok && k.Name == "tlsConfig" {
+					if v, ok := x.Value.(*ast.Ident); ok {
+						if _, dup := init[fn]; dup {
+							other = true
+						}
+						init[fn] = v.Name
+						initFd[fn] = p.fd
+					} else {
+						other = true
+					}
+				}
+			case *ast.AssignStmt:
+				for _, l := range x.Lhs {
+					if se, ok := l.(*ast.SelectorExpr); ok && se.Sel.Name == "tlsConfig" {
+						other = true
+					}
+					// a field of the shared object modified in place: svr.tlsConfig.X = ...
+					if se, ok := l.(*ast.SelectorExpr); ok {
+						if in, ok := se.X.(*ast.SelectorExpr); ok && in.Sel.Name == "tlsConfig" {
+							other = true
+						}
+					}
+				}
+			}
+			return true
+		})
+	}
+	if other || len(init) != 1 {
+		return false
+	}
+	for fn, id := range init {
+		return isOriginIdent(initFd[fn], id)
+	}
+	return false
+}
+
+// singleDef returns the only definition of identifier name in fd (nil if none or several)
+func singleDef(fd *ast.FuncDecl, name string) ast.Expr {
+	var defs []ast.Expr
+	bad := false
+	ast.Inspect(fd.Body, func(n ast.Node) bool {
+		if x, ok := n.(*ast.AssignStmt); ok {
+			for i, l := range x.Lhs {
+				if li, ok := l.(*ast.Ident); ok && li.Name == name {
+					if len(x.Rhs) == 1 {
+						defs = append(defs, x.Rhs[0])
+					} else if len(x.Lhs) == len(x.Rhs) {
+						defs = append(defs, x.Rhs[i])
+					} else {
+						bad = true
+					}
+				}
+			}
+		}
+		return true
+	})
+	if bad || len(defs) != 1 {
+		return nil
+	}
+	return defs[0]
+}
+
+// fieldsAssigned lists the fields assigned through identifier name in fd (name.F = ...), "?" for anything deeper
+func fieldsAssigned(fd *ast.FuncDecl, name string) []string {
+	var fs []string
+	ast.Inspect(fd.Body, func(n ast.Node) bool {
+		if x, ok := n.(*ast.AssignStmt); ok {
+			for _, l := range x.Lhs {
+				if strings.HasPrefix(text(l), name+".") {
+					if se, ok := l.(*ast.SelectorExpr); ok {
+						if id, ok := se.X.(*ast.Ident); ok && id.Name == name {
+							fs = append(fs, se.Sel.Name)
+							continue
+						}
+					}
+					fs = append(fs, "?"+text(l))
+				}
+			}
+		}
+		return true
+	})
+	return fs
+}
+
+func isOriginIdent(fd *ast.FuncDecl, name string) bool {
+	d := singleDef(fd, name)
+	c, ok := d.(*ast.CallExpr)
+	return ok && isSel(c.Fun, "transport", "NewServerTLSConfig") && len(fieldsAssigned(fd, name)) == 0
+}
+
+// tlsCfgExpr classifies the *tls.Config expression e used in fd
+func tlsCfgExpr(fd *ast.FuncDecl, e ast.Expr, fieldIsOrigin bool) string {
+	unknown := func() string { return "(TcUnknown " + q(text(e)) + ")" }
+	switch x := e.(type) {
+	case *ast.SelectorExpr:
+		// <recv>.tlsConfig: the struct field, initialised once from the origin in the constructor
+		if x.Sel.Name != "tlsConfig" || !fieldIsOrigin {
+			return unknown()
+		}
+		return "TcOrigin"
+	case *ast.Ident:
+		if isOriginIdent(fd, x.Name) {
+			return "TcOrigin"
+		}
+		d := singleDef(fd, x.Name)
+		if c, ok := d.(*ast.CallExpr); ok && len(c.Args) == 0 {
+			if se, ok := c.Fun.(*ast.SelectorExpr); ok && se.Sel.Name == "Clone" {
+				if id, ok := se.X.(*ast.Ident); ok && isOriginIdent(fd, id.Name) {
+					var qs []string
+					for _, f := range fieldsAssigned(fd, x.Name) {
+						qs = append(qs, q(f))
+					}
+					return "(TcClone [" + strings.Join(qs, "; ") + "])"
+				}
+			}
+		}
+		if d != nil {
+			return "(TcUnknown " + q(text(d)) + ")"
+		}
+	}
+	return unknown()
 }
 
 // isConfigForce: <x>.cfg.Transport.TLS.Force
